@@ -2,19 +2,19 @@
    (admission decision of the server). *)
 From Verif Require Import Base Consts Server ServerSpec ServerProofs.
 
-Theorem c13_admit_iff : forall s src dst dst_ok,
-  (server_admit s src dst dst_ok = AdmitTo src <->
-   spec_admit (abs s)
+Theorem c13_accepted_iff : forall s src dst dst_ok,
+  (server_accepts s src dst dst_ok = HandTo src <->
+   spec_accepts (abs s)
      (fun a => match lookup a (s_peers s) with
                | Some (_, o) => if is_valid (o_local o) then Some (o_local o) else None
                | None => None end) src dst dst_ok = true)
-  /\ (server_admit s src dst dst_ok = Refuse \/ server_admit s src dst dst_ok = AdmitTo src).
-Proof. exact admit_spec. Qed.
-Print Assumptions c13_admit_iff.
+  /\ (server_accepts s src dst dst_ok = Refuse \/ server_accepts s src dst dst_ok = HandTo src).
+Proof. exact accepts_spec. Qed.
+Print Assumptions c13_accepted_iff.
 
 (* peer side (Layer C), every interleaving: an inbound connection handed to the manager is
    refused exactly when an inbound FSM exists, the outbound FSM is Established or the peer is held
-   down; a refused connection changes nothing; an admitted one creates the inbound FSM *)
+   down; a refused connection changes nothing; an accepted one creates the inbound FSM *)
 From Coq Require Import List Bool.
 From Verif Require Import Closure Peer PeerProofs PeerCorollaries.
 Theorem c13_busy : forall p d tr s s',
